@@ -100,8 +100,16 @@ def scan_prefixes(root: Path | None = None):
 DISPLAYS = ["x", "x", "r", "T", "m", "x_0", "r_max", "E", None, "", "aQTYb"]
 LATEXES = [None, None, None, "", "\\rho", "x", "\\mathbf{r}"]
 SUBS = [None, None, "", "0", "max", "1"]
+# signed facts (name -> True/False), each set sorted by name; the closures SymPy derives from them are pairwise distinct for
+# Symbol, IndexedBase and UndefinedFunction (checked by assum_tables).  False-valued facts that are NOT implied by a True one
+# (zero=False, real=False, integer=False, ...) are what distinguishes "known to be false" from "unknown".
 ASSUMS = [(), (("positive", True),), (("real", True),), (("integer", True),), (("nonnegative", True),),
-    (("integer", True), ("positive", True))]
+    (("integer", True), ("positive", True)),
+    (("zero", False),), (("complex", True), ("real", False)), (("negative", False),), (("integer", False),),
+    (("positive", False),), (("nonzero", True),), (("even", True),), (("odd", True),), (("commutative", False),),
+    (("integer", False), ("real", True)), (("rational", False), ("real", True)), (("imaginary", True),),
+    (("finite", False),), (("nonpositive", True), ("zero", False))]
+QUERIES = ("is_zero", "is_real", "is_positive", "is_integer", "is_commutative", "is_rational", "is_finite")
 
 
 def dim_pool():
@@ -120,7 +128,11 @@ def assum_tables():
         kw = dict(a)
         tabs["sym"].append(dict(sympy.Symbol("_", **kw).assumptions0))
         tabs["idx"].append(dict(sympy.IndexedBase("_", **kw).assumptions0))
-        tabs["fun"].append(dict(getattr(sympy.Function("_", **kw), "_kwargs", {})))
+        tabs["fun"].append(function_kwargs(sympy.Function("_", **kw)))
+    for kind, tab in tabs.items():
+        keys = [tuple(sorted(c.items())) for c in tab]
+        if len(set(keys)) != len(keys):
+            raise RuntimeError(f"assumption pool is ambiguous for {kind}: two entries have the same closure")
     return tabs
 
 
@@ -209,7 +221,7 @@ def run_sequence(rng, n_ops: int, t_symbol):
     systems = []
 
     def pick_assum():
-        return rng.choice(ASSUMS) if rng.random() < 0.6 else ()
+        return rng.choice(ASSUMS) if rng.random() < 0.7 else ()
 
     weights = [("sym", 22), ("idx", 8), ("fun", 10), ("qty", 8), ("sys", 2), ("tsys", 1), ("rsys", 1), ("vec", 4),
         ("qvec", 2), ("csym", 22), ("cfun", 10), ("cidx", 8)]
@@ -340,6 +352,7 @@ def run_sequence(rng, n_ops: int, t_symbol):
                 rec["assum"] = ()
             rec["assum_raw"] = raw
             term = o.term(t_symbol)
+            rec["queries"] = {q: getattr(term, q, None) for q in QUERIES} if o.kind in SCALAR else {}
             rec["pp"] = print_expression(term)
             rec["code"] = code_str(term)
             if o.kind == "qty":
@@ -407,8 +420,11 @@ def run_sequence(rng, n_ops: int, t_symbol):
     for i, rec in enumerate(seen_py):
         env[rec["name"]] = Fraction(primes[i + 3])
     algebra = []
-    xs = [i for i, o in enumerate(objs) if o.kind in SCALAR and seen_py[i]["assum"] in ((), (("real", True),))]
-    others = [i for i, o in enumerate(objs) if o.kind in SCALAR]
+    # x carries no assumptions: SymPy's solve() discards a root that contradicts the unknown's assumptions (e.g. a real x and
+    # an imaginary coefficient), which is not aliasing
+    xs = [i for i, o in enumerate(objs) if o.kind in SCALAR and seen_py[i]["assum"] == ()]
+    # coefficients: SymPy's solve() returns nothing for a non-commutative or infinite coefficient (not aliasing either)
+    others = [i for i, o in enumerate(objs) if o.kind in SCALAR and not ({("commutative", False), ("finite", False)} & set(seen_py[i]["assum"] or ()))]
     for _ in range(min(4, len(xs))):
         if len(others) < 4:
             break
@@ -446,7 +462,7 @@ def run_sequence(rng, n_ops: int, t_symbol):
         glist(f"(({', '.join(gnat(i) for i in r['idx'])}), ({', '.join(qv(v) for v in r['values'])}))" for r in algebra) + ")")
     return {"lit": lit, "objs": objs, "ops": ops_py, "seen": seen_py, "ids_before": ids_before, "ids_after": ids_after,
         "alias": alias, "sums": sums, "algebra": algebra, "bumped": bumped, "hash_equal_offdiag": hash_equal_offdiag,
-        "not_self_equal": not_self_equal, "env": env}
+        "not_self_equal": not_self_equal, "env": env, "tabs": tabs}
 
 
 def _value_text(printer, q):
